@@ -141,6 +141,50 @@ def run_case(op, xs, ks, sizes, params):
     return None
 
 
+def run_resume_case(op, xs, ks, sizes):
+    """C12: run the whole batch sequence with with_state=True, then for every cut point restart a fresh pipeline from the
+    state emitted at the cut (the very object that was emitted, inspected after the first run has finished, so later
+    mutation of an emitted state shows) and compare the remaining results."""
+    import pandas as pd
+    from streamz import Stream
+    from streamz.dataframe import DataFrame
+    n = len(xs)
+    t0 = pd.Timestamp('2020-01-01')
+    index = [t0 + pd.Timedelta(seconds=i) for i in range(n)] if op['index'] == 'time' else list(range(n))
+    ys = [xs[(i + 1) % n] * 2 for i in range(n)] if n else []
+    full = pd.DataFrame({'x': xs, 'y': ys, 'k': ks}, index=index)
+    batches, pos = [], 0
+    for sz in sizes:
+        batches.append(full.iloc[pos:pos + sz])
+        pos += sz
+
+    def run(bs, start):
+        src = Stream()
+        sdf = DataFrame(src, example=full.iloc[:0])
+        out = op['build'](sdf, start)
+        L = out.stream.sink_to_list()
+        for b in bs:
+            src.emit(b)
+        return L
+    try:
+        L = run(batches, op['first_start'])
+    except Exception as e:
+        return {'exception': 'full run: %s: %s' % (type(e).__name__, e)}
+    if len(L) != len(batches):
+        return None      # nothing to cut (e.g. an operation that does not emit for empty batches)
+    for j in range(1, len(batches)):
+        state = op['state_of'](L[j - 1])
+        try:
+            L2 = run(batches[j:], state)
+        except Exception as e:
+            return {'cut_after_batch': j, 'exception': 'resumed run: %s: %s' % (type(e).__name__, e)}
+        want = [op['value_of'](r) for r in L[j:]]
+        got = [op['value_of'](r) for r in L2]
+        if len(want) != len(got) or not all(eq(a, b) for a, b in zip(got, want)):
+            return {'cut_after_batch': j, 'got': repr(got)[:300], 'uninterrupted': repr(want)[:300]}
+    return None
+
+
 def ops_for(pid):
     import pandas as pd
     P = 'per_prefix'
@@ -226,6 +270,28 @@ def ops_for(pid):
         def build(s, p):
             return s.x.ewm(com=com).mean()
         return {'name': 'x.ewm(com=%s).mean' % com, 'kind': P, 'index': 'int', 'build': build, 'oracle': oracle, 'last_value': True}
+    def resume(name, build, index='int'):
+        return {'name': name + ' [resume from emitted state]', 'kind': 'resume', 'index': index, 'build': build, 'first_start': None,
+                'state_of': lambda r: r[0], 'value_of': lambda r: r[1]}
+
+    def resume_total(name, build):
+        # no with_state: the running result itself is the state handed to start=
+        from streamz.core import no_default
+        return {'name': name + ' [resume from running total]', 'kind': 'resume', 'index': 'int',
+                'build': lambda s, st: build(s, st), 'first_start': None, 'state_of': lambda r: r, 'value_of': lambda r: r}
+    if pid == 'C12':
+        return [resume('window(n=2).x.sum', lambda s, st: s.window(n=2, with_state=True, start=st).x.sum()),
+                resume('window(n=3).x.mean', lambda s, st: s.window(n=3, with_state=True, start=st).x.mean()),
+                resume('window(n=2).x.var', lambda s, st: s.window(n=2, with_state=True, start=st).x.var()),
+                resume('window(n=2)[x,y].sum', lambda s, st: s.window(n=2, with_state=True, start=st)[['x', 'y']].sum()),
+                resume("window(value='2s').x.sum", lambda s, st: s.window(value='2s', with_state=True, start=st).x.sum(), 'time'),
+                resume("window(n=2).groupby('k').x.sum", lambda s, st: s.window(n=2, with_state=True, start=st).groupby('k').x.sum()),
+                resume("window(n=3).groupby('k').x.mean", lambda s, st: s.window(n=3, with_state=True, start=st).groupby('k').x.mean()),
+                resume("groupby('k').x.mean", lambda s, st: s.groupby('k').x.mean(with_state=True, start=st)),
+                resume_total('x.sum', lambda s, st: s.x.sum(start=st)),
+                resume_total('x.count', lambda s, st: s.x.count(start=st)),
+                resume_total("groupby('k').x.sum", lambda s, st: s.groupby('k').x.sum(start=st)),
+                resume_total("groupby('k').x.count", lambda s, st: s.groupby('k').x.count(start=st))]
     if pid == 'C06':
         return [red('sum'), red('count'), red('mean'), red('size'), red('sum', True), red('mean', True), red('count', True),
                 gb('sum'), gb('count'), gb('size'), gb('mean'), gb('var'), gb('std'), gb('sum', True), gb('mean', True),
@@ -259,7 +325,10 @@ def main():
                     key = (op['name'], tuple('nan' if v != v else v for v in xs), tuple(ks), tuple(sizes))
                     distinct.add(key)
                     try:
-                        bad = run_case(op, xs, ks, sizes, {})
+                        if op['kind'] == 'resume':
+                            bad = run_resume_case(op, xs, ks, sizes) if len(sizes) > 1 else None
+                        else:
+                            bad = run_case(op, xs, ks, sizes, {})
                     except Exception as e:
                         bad = {'harness_error': repr(e)}
                     if len(samples) < 3:
